@@ -6,7 +6,7 @@ from __future__ import annotations
 
 import operator
 
-from redun import task
+from redun import Handle, task
 from redun.expression import Expression
 from redun.functools import apply_func, flat_map, map_, seq
 from redun.scheduler import apply_tags, catch, catch_all, cond, fork_thread, join_thread, throw
@@ -64,6 +64,13 @@ def py_boom(x):
 
 PYF = {"sum": py_sum, "len": py_len, "neg": py_neg, "pair": py_pair, "err_info": py_err_info,
        "count_errors": py_count_errors, "boom": py_boom}
+
+class VH(Handle):
+    """A handle whose state is opaque to the tests (only its lineage matters)."""
+
+    def __init__(self, name, namespace=None):
+        self.label = name
+
 
 CALLS: list = []   # (task name, ast digest) — call log for in-process (thread / controlled) runs
 
@@ -180,6 +187,13 @@ def comp(ast, env):
         return f(*[comp(a, env) for a in ast[2]])
     if k == "mkpartial":   # a partial task as a value
         return elem.partial(ast[1], {n: comp(b, env) for n, b in ast[2].items()})
+    if k == "handle":
+        return VH(ast[1])
+    if k == "use":
+        t = use.options(**ast[3]) if len(ast) > 3 and ast[3] else use
+        return t(comp(ast[1], env), comp(ast[2], env))
+    if k == "peek":
+        return peek(comp(ast[1], env))
     if k == "getctx":
         from redun.context import get_context
 
@@ -193,6 +207,18 @@ def _build(spec):
 
 def _log(name, ast):
     CALLS.append((name, repr(ast)[:80]))
+
+
+@task(name="use")
+def use(h, x):
+    """Takes a handle (forked on the way in) and returns it (advanced on the way out)."""
+    _log("use", x)
+    return h
+
+
+@task(name="peek")
+def peek(h):
+    return h.label
 
 
 @task(name="node")
